@@ -667,6 +667,56 @@ func ruleCleanTestsEveryChild(c *Ctx, rule string) {
 	if n == 0 {
 		c.R.Add(rule, c.fk(f), "removal-predicate", c.P.Pos(f.Pos()), true, "the removal test is a predicate applied to every element (slices.DeleteFunc or equivalent)")
 	}
+	// only: a child is marked for removal (appended to the list of removals) only behind the true edge of the test —
+	// "its subtree became empty" is no reason: the child may be a live route itself
+	testTrue := func(b *ssa.BasicBlock, succ int) bool {
+		cond, onTrue := an.EdgeCond(b, succ)
+		if cond == nil {
+			return false
+		}
+		v, neg := stripNot(cond)
+		call, ok := v.(*ssa.Call)
+		if !ok {
+			return false
+		}
+		cc, ok := calleeNamed(call, "strings.HasPrefix")
+		return ok && isPrefixVal(cc.Args[1]) && strings.Contains(an.AP(cc.Args[0]), "."+a.FSegment+".") && onTrue != neg
+	}
+	for _, g := range fns {
+		an.AllInstrs(g, func(in ssa.Instruction) {
+			call, ok := builtinCall(in, "append")
+			if !ok || len(call.Args) < 2 {
+				return
+			}
+			if _, isField := fieldLoadOf(call.Args[0], a.NodeT, a.FChildren); isField {
+				return
+			}
+			v, isVal := in.(ssa.Value)
+			if !isVal {
+				return
+			}
+			// a list of children or of their texts
+			sl, isSlice := v.Type().Underlying().(*types.Slice)
+			if !isSlice || !(isStringType(sl.Elem()) || isPtrToNamed(sl.Elem(), a.NodeT)) {
+				return
+			}
+			dom := an.DominatedByEdge(in, testTrue)
+			c.R.Add(rule, c.fk(g), "mark-for-removal/only-behind-prefix-test", c.pos(in), dom, ifelse(dom, "a child is marked for removal only when its text starts with the prefix", "a child can be marked for removal without its text starting with the prefix (for instance because its subtree became empty): a live route whose pattern is shorter than the prefix is removed by Clean"))
+		})
+	}
+	// the walk runs on every path of Tree.Clean, from the root, with the prefix given
+	walkCall := func(in ssa.Instruction) bool {
+		call, ok := calleeIs(in, f)
+		return ok && len(call.Args) == 2 && an.AP(call.Args[0]) == "recv."+a.FRootNode && an.AP(call.Args[1]) == "p:"+a.TreeClean.Params[1].Name()
+	}
+	wpath := (&an.Query{
+		Target: func(in ssa.Instruction) bool { _, ok := in.(*ssa.Return); return ok },
+		Block:  walkCall,
+	}).Search(an.Entry(a.TreeClean))
+	o := c.R.Add(rule, c.fk(a.TreeClean), "walk(root,prefix)/on-every-path", c.P.Pos(a.TreeClean.Pos()), wpath == nil, ifelse(wpath == nil, "every path of Tree.Clean walks the tree from the root with the given prefix", "Tree.Clean can return without walking the tree with the prefix (a shortcut that looks the prefix up as a pattern removes one node, not every route whose pattern starts with the prefix)"))
+	if wpath != nil {
+		o.Path = c.P.PathString(wpath)
+	}
 }
 
 // ruleSearchTriesEverySibling: the recursive searches over the tree (find, checkAmbiguous, matchChildren, …) leave
